@@ -700,6 +700,37 @@ plus real encode, compared on diagnostics (full text) and output bytes. non-triv
 	cx.report.hit_n("fixed invalid operand shapes", fixed.len() as u64);
 	run_batch(cx, &fixed, dirs);
 
+	// operands written as literals beyond the i64 range (any radix, also with low bits that would be a valid operand):
+	// the text does not lex, so there is no model side; the statement must be diagnosed and leave no encoding
+	{
+		let big: Vec<String> = vec!["0x10000000000000001".to_owned(), "0x8000000000000000".to_owned(), "0xFFFFFFFFFFFFFFFF".to_owned(), "0x10000000000000000".to_owned(),
+			"0x100000000000000000000004".to_owned(), format!("0b1{}1", "0".repeat(63)), format!("0b1{}100", "0".repeat(62)), "0o2000000000000000000001".to_owned(),
+			"0o1000000000000000000000".to_owned(), "9223372036854775808".to_owned(), "18446744073709551617".to_owned(), "36893488147419103236".to_owned()];
+		let forms = ["MOVS R0, {};", "SVC {};", "ADDS R1, R1, {};", "LDRB R0, [R1 + {}];", "LDR R0, [SP + {}];", "B {};", "BL {};", "CMP R2, {};", "UDF.W {};", "MOVS R0, {} & 0xFF;", "MOVS R0, 1 + {};"];
+		let mut n = 0u64;
+		for b in &big
+		{
+			for f in forms
+			{
+				let text = format!(".addr 0x20000000; {}", f.replace("{}", b));
+				let input = format!("invalid#{text}");
+				let real = real_run(&text, 1, 19, dirs);
+				n += 1;
+				cx.report.case(None);
+				if let Some(p) = &real.panic {cx.report.oracle_fail(input, format!("the assembler panicked: {p}")); continue;}
+				if real.errs.is_empty() && real.other.is_empty()
+				{
+					cx.report.oracle_fail(input, format!("a literal beyond the 64-bit range was accepted without a diagnostic; output {:?}", real.out));
+				}
+				else if real.out.iter().any(|(_, b)| b.iter().any(|x| *x != 0xBE))
+				{
+					cx.report.oracle_fail(input, format!("invalid statement left an encoding in the output: {:?}", real.out));
+				}
+			}
+		}
+		cx.report.hit_n("operands with literals beyond 2^63 (must be diagnosed)", n);
+	}
+
 	let total = if cx.thorough() {5_000_000} else {200_000};
 	let mut done = 0;
 	while done < total
